@@ -18,7 +18,7 @@ CONSTANTS
   RewardRates = {1, 2, 3}
   MaxStart = 2
   TopUps = {1, 3}
-  Donations = {}
+  Donations = {1}
   Creators = {"u1", "u2"}
 CONSTRAINT GenConstraint
 CHECK_DEADLOCK FALSE
